@@ -27,35 +27,93 @@ structure Inv (s : St) : Prop where
 theorem inv_init : Inv init := by
   constructor <;> simp [init, connArgs, countdown, newSocks]
 
+/-! #### `attempt`, answer by answer (all by running Hy.Connect.newClient) -/
+
+theorem attempt_cfgErr (s : St) : attempt s .cfgErr = ({ s with log := .cfg :: s.log }, some .cfgErr) := rfl
+
+theorem attempt_badCfg (s : St) :
+    attempt s .badCfg = ({ s with client := none, log := .cfg :: s.log }, some .badCfg) := rfl
+
+theorem attempt_newErr (s : St) :
+    attempt s .newErr = ({ s with client := none, log := .cfg :: s.log }, some .newErr) := rfl
+
+/-- the answers on which connect() fails AFTER the factory returned a socket -/
+def Att.failsWithSocket (a : Att) : Prop := a = .dialErr ∨ a = .rtErr ∨ a = .authErr
+
+theorem attempt_failSock (s : St) (a : Att) (ha : a.failsWithSocket) :
+    attempt s a =
+      ({ s with client := none, nextId := s.nextId + 1, sock := upd s.sock s.nextId (some false),
+                res := upd s.res s.nextId (some (Connect.connect a.exit).1),
+                log := .new s.nextId :: .cfg :: s.log }, some .connErr) := by
+  rcases ha with h | h | h <;> subst h <;> rfl
+
+theorem attempt_ok (s : St) :
+    attempt s .ok =
+      ({ s with client := some s.nextId, nextId := s.nextId + 1, sock := upd s.sock s.nextId (some true),
+                res := upd s.res s.nextId (some Connect.owned), count := s.count + 1,
+                log := .connected (s.count + 1) :: .new s.nextId :: .cfg :: s.log }, none) := rfl
+
+/-- every answer is one of the five shapes -/
+theorem att_cases (a : Att) : a = .cfgErr ∨ a = .badCfg ∨ a = .newErr ∨ a.failsWithSocket ∨ a = .ok := by
+  cases a <;> simp [Att.failsWithSocket]
+
 /-! #### frame lemmas for `reconnect` -/
 
+theorem attempt_frame (s : St) (a : Att) :
+    (attempt s a).1.started = s.started ∧ (attempt s a).1.closed = s.closed ∧
+    (attempt s a).1.pc = s.pc ∧ (attempt s a).1.dead = s.dead ∧
+    cfgCount (attempt s a).1.log = cfgCount s.log + 1 := by
+  rcases att_cases a with h | h | h | h | h
+  · subst h; rw [attempt_cfgErr]; simp [cfgCount]
+  · subst h; rw [attempt_badCfg]; simp [cfgCount]
+  · subst h; rw [attempt_newErr]; simp [cfgCount]
+  · rw [attempt_failSock s a h]; simp [cfgCount]
+  · subst h; rw [attempt_ok]; simp [cfgCount]
+
+theorem closeOld_frame0 (s : St) :
+    (closeOld s).started = s.started ∧ (closeOld s).closed = s.closed ∧ (closeOld s).pc = s.pc ∧
+    (closeOld s).dead = s.dead ∧ (closeOld s).log = s.log := by
+  unfold closeOld closeSock; cases s.client <;> exact ⟨rfl, rfl, rfl, rfl, rfl⟩
+
 theorem reconnect_started (s : St) (a : Att) : (reconnect s a).1.started = s.started := by
-  unfold reconnect attempt closeOld closeSock; cases a <;> cases s.client <;> rfl
+  unfold reconnect; rw [(attempt_frame _ a).1, (closeOld_frame0 s).1]
 
 theorem reconnect_closed (s : St) (a : Att) : (reconnect s a).1.closed = s.closed := by
-  unfold reconnect attempt closeOld closeSock; cases a <;> cases s.client <;> rfl
+  unfold reconnect; rw [(attempt_frame _ a).2.1, (closeOld_frame0 s).2.1]
 
 theorem reconnect_pc (s : St) (a : Att) : (reconnect s a).1.pc = s.pc := by
-  unfold reconnect attempt closeOld closeSock; cases a <;> cases s.client <;> rfl
+  unfold reconnect; rw [(attempt_frame _ a).2.2.1, (closeOld_frame0 s).2.2.1]
 
 theorem reconnect_dead (s : St) (a : Att) : (reconnect s a).1.dead = s.dead := by
-  unfold reconnect attempt closeOld closeSock; cases a <;> cases s.client <;> rfl
+  unfold reconnect; rw [(attempt_frame _ a).2.2.2.1, (closeOld_frame0 s).2.2.2.1]
 
 /-- exactly one configFunc evaluation per attempt -/
 theorem reconnect_cfgCount (s : St) (a : Att) : cfgCount (reconnect s a).1.log = cfgCount s.log + 1 := by
-  unfold reconnect attempt closeOld closeSock; cases a <;> cases s.client <;> simp [cfgCount]
+  unfold reconnect; rw [(attempt_frame _ a).2.2.2.2, (closeOld_frame0 s).2.2.2.2]
 
 /-- the attempt succeeds exactly on `Att.ok` -/
+theorem attempt_err (s : St) (a : Att) : (attempt s a).2 = none ↔ a = .ok := by
+  rcases att_cases a with h | h | h | h | h
+  · subst h; simp [attempt_cfgErr]
+  · subst h; simp [attempt_badCfg]
+  · subst h; simp [attempt_newErr]
+  · rw [attempt_failSock s a h]
+    rcases h with h | h | h <;> subst h <;> simp
+  · subst h; simp [attempt_ok]
+
 theorem reconnect_err (s : St) (a : Att) : (reconnect s a).2 = none ↔ a = .ok := by
-  unfold reconnect attempt; cases a <;> simp
+  unfold reconnect; exact attempt_err _ a
+
+theorem closeOld_none (s : St) (h : s.client = none) : closeOld s = s := by
+  simp [closeOld, h]
 
 /-- what a successful attempt from `client = none` does -/
 theorem reconnect_ok_none (s : St) (h : s.client = none) :
     reconnect s .ok =
       ({ s with client := some s.nextId, nextId := s.nextId + 1, sock := upd s.sock s.nextId (some true),
-                count := s.count + 1,
+                res := upd s.res s.nextId (some Connect.owned), count := s.count + 1,
                 log := .connected (s.count + 1) :: .new s.nextId :: .cfg :: s.log }, none) := by
-  simp [reconnect, attempt, closeOld, h]
+  unfold reconnect; rw [closeOld_none s h, attempt_ok]
 
 /-- a failed attempt from `client = none`: client stays none, count and connectedFunc calls unchanged,
     no socket is open afterwards that was not open before -/
@@ -64,11 +122,19 @@ theorem reconnect_fail_none (s : St) (a : Att) (h : s.client = none) (ha : a ≠
     connArgs (reconnect s a).1.log = connArgs s.log ∧
     (∀ x, (reconnect s a).1.sock x = some true → s.sock x = some true) ∧
     (reconnect s a).2 ≠ none := by
-  cases a <;> simp_all [reconnect, attempt, closeOld, connArgs, upd_apply]
-  intro x hx
-  split at hx
-  · simp at hx
-  · exact hx
+  unfold reconnect; rw [closeOld_none s h]
+  rcases att_cases a with h' | h' | h' | h' | h'
+  · subst h'; rw [attempt_cfgErr]; simp [connArgs, h]
+  · subst h'; rw [attempt_badCfg]; simp [connArgs]
+  · subst h'; rw [attempt_newErr]; simp [connArgs]
+  · rw [attempt_failSock s a h']
+    refine ⟨rfl, rfl, by simp [connArgs], ?_, by simp⟩
+    intro x hx
+    simp only [upd_apply] at hx
+    split at hx
+    · simp at hx
+    · exact hx
+  · exact absurd h' ha
 
 /-- with the allocation mark in place the set of open sockets is exactly unchanged -/
 theorem reconnect_fail_none_open (s : St) (a : Att) (h : s.client = none) (ha : a ≠ .ok)
@@ -76,10 +142,19 @@ theorem reconnect_fail_none_open (s : St) (a : Att) (h : s.client = none) (ha : 
     (reconnect s a).1.sock x = some true ↔ s.sock x = some true := by
   refine ⟨(reconnect_fail_none s a h ha).2.2.2.1 x, ?_⟩
   intro hx
-  cases a <;> simp_all [reconnect, attempt, closeOld, upd_apply]
-  intro hc
-  have := hal x (by omega)
-  simp_all
+  unfold reconnect; rw [closeOld_none s h]
+  rcases att_cases a with h' | h' | h' | h' | h'
+  · subst h'; rw [attempt_cfgErr]; exact hx
+  · subst h'; rw [attempt_badCfg]; exact hx
+  · subst h'; rw [attempt_newErr]; exact hx
+  · rw [attempt_failSock s a h']
+    simp only [upd_apply]
+    split
+    · rename_i hc
+      have := hal x (by omega)
+      rw [this] at hx; cases hx
+    · exact hx
+  · exact absurd h' ha
 
 /-! #### the invariant is preserved -/
 
@@ -134,68 +209,68 @@ theorem quiet_of_none (s : St) (h : Inv s) (hc : s.client = none) : Quiet s := b
 
 theorem inv_attempt (s : St) (a : Att) (h : Inv s) (hq : Quiet s) (hc : s.closed = false) :
     Inv (attempt s a).1 := by
-  cases a with
-  | cfgErr =>
-    exact ⟨h.live, h.fin, h.alloc, h.used, h.cur, h.cs, by simpa [attempt, connArgs] using h.cnt,
-      by simpa [attempt, newSocks] using h.socks⟩
-  | badCfg =>
-    refine ⟨?_, h.fin, h.alloc, h.used, ?_, h.cs, by simpa [attempt, connArgs] using h.cnt,
-      by simpa [attempt, newSocks] using h.socks⟩
+  rcases att_cases a with h' | h' | h' | h' | h'
+  · subst h'; rw [attempt_cfgErr]
+    exact ⟨h.live, h.fin, h.alloc, h.used, h.cur, h.cs, by simpa [connArgs] using h.cnt,
+      by simpa [newSocks] using h.socks⟩
+  · subst h'; rw [attempt_badCfg]
+    refine ⟨?_, h.fin, h.alloc, h.used, ?_, h.cs, by simpa [connArgs] using h.cnt,
+      by simpa [newSocks] using h.socks⟩
     · intro x hx; exact absurd hx (hq x)
-    · intro c hc; simp [attempt] at hc
-  | newErr =>
-    refine ⟨?_, h.fin, h.alloc, h.used, ?_, h.cs, by simpa [attempt, connArgs] using h.cnt,
-      by simpa [attempt, newSocks] using h.socks⟩
+    · intro c hc; simp at hc
+  · subst h'; rw [attempt_newErr]
+    refine ⟨?_, h.fin, h.alloc, h.used, ?_, h.cs, by simpa [connArgs] using h.cnt,
+      by simpa [newSocks] using h.socks⟩
     · intro x hx; exact absurd hx (hq x)
-    · intro c hc; simp [attempt] at hc
-  | connErr =>
-    refine ⟨?_, ?_, ?_, ?_, ?_, h.cs, by simpa [attempt, connArgs] using h.cnt, ?_⟩
+    · intro c hc; simp at hc
+  · rw [attempt_failSock s a h']
+    refine ⟨?_, ?_, ?_, ?_, ?_, h.cs, by simpa [connArgs] using h.cnt, ?_⟩
     · intro x hx
-      simp only [attempt, upd_apply] at hx
+      simp only [upd_apply] at hx
       split at hx
       · simp at hx
       · exact absurd hx (hq x)
     · intro _ x hx
-      simp only [attempt, upd_apply] at hx
+      simp only [upd_apply] at hx
       split at hx
       · simp at hx
       · exact absurd hx (hq x)
     · intro x hx
-      simp only [attempt, upd_apply] at hx ⊢
+      simp only [upd_apply] at hx ⊢
       have : x ≠ s.nextId := by omega
       simp only [this, if_false]
       exact h.alloc x (by omega)
     · intro x hx
-      simp only [attempt, upd_apply] at hx ⊢
+      simp only [upd_apply] at hx ⊢
       split
       · simp
       · exact h.used x (by omega)
-    · intro c hc; simp [attempt] at hc
-    · simp only [attempt, newSocks, h.socks, List.range_succ, List.reverse_append, List.reverse_cons,
+    · intro c hc; simp at hc
+    · simp only [newSocks, h.socks, List.range_succ, List.reverse_append, List.reverse_cons,
         List.reverse_nil, List.nil_append, List.singleton_append]
-  | ok =>
+  · subst h'; rw [attempt_ok]
     refine ⟨?_, ?_, ?_, ?_, ?_, h.cs, ?_, ?_⟩
     · intro x hx
-      simp only [attempt, upd_apply] at hx ⊢
+      simp only [upd_apply] at hx ⊢
       split at hx
       · rename_i hx'; rw [hx']
       · exact absurd hx (hq x)
-    · intro hcl; simp only [attempt] at hcl; rw [hc] at hcl; cases hcl
+    · intro hcl; simp only at hcl; rw [hc] at hcl; cases hcl
     · intro x hx
-      simp only [attempt, upd_apply] at hx ⊢
+      simp only [upd_apply] at hx ⊢
       have : x ≠ s.nextId := by omega
       simp only [this, if_false]
       exact h.alloc x (by omega)
     · intro x hx
-      simp only [attempt, upd_apply] at hx ⊢
+      simp only [upd_apply] at hx ⊢
       split
       · simp
       · exact h.used x (by omega)
     · intro c hc
-      simp only [attempt, Option.some.injEq] at hc ⊢
+      simp only [Option.some.injEq] at hc ⊢
       omega
-    · simp only [attempt, connArgs, countdown, h.cnt]
-    · simp only [attempt, newSocks, h.socks, List.range_succ, List.reverse_append, List.reverse_cons,
+    · simp only [connArgs, countdown, h.cnt]
+    · simp only [newSocks, h.socks, List.range_succ, List.reverse_append, List.reverse_cons,
         List.reverse_nil, List.nil_append, List.singleton_append]
 
 theorem closeOld_closed (s : St) : (closeOld s).closed = s.closed := by
@@ -598,7 +673,12 @@ theorem attempt_count (s : St) (a : Att) :
       connArgs (attempt s a).1.log = (s.count + 1) :: connArgs s.log ∧
       (attempt s a).1.client = some s.nextId ∧ (attempt s a).1.sock s.nextId = some true ∧
       (attempt s a).1.nextId = s.nextId + 1) := by
-  cases a <;> simp [attempt, connArgs]
+  rcases att_cases a with h | h | h | h | h
+  · subst h; rw [attempt_cfgErr]; simp [connArgs]
+  · subst h; rw [attempt_badCfg]; simp [connArgs]
+  · subst h; rw [attempt_newErr]; simp [connArgs]
+  · rw [attempt_failSock s a h]; simp [connArgs]
+  · subst h; rw [attempt_ok]; simp [connArgs]
 
 theorem closeOld_frame (s : St) :
     (closeOld s).count = s.count ∧ (closeOld s).log = s.log ∧ (closeOld s).nextId = s.nextId := by
@@ -683,5 +763,230 @@ theorem count_step_aux (cfg : Cfg) (s : St) (l : Label) :
     split
     · exact ⟨rfl, rfl⟩
     · split <;> exact ⟨rfl, rfl⟩
+
+/-! #### the three resources behind every factory socket (Hy.Connect) -/
+
+theorem held_close (r : Connect.R3) : Connect.held (Connect.close r) = false := by
+  cases r with
+  | mk p t c nd =>
+    cases p <;> cases t <;> cases c <;>
+      simp [Connect.close, Connect.closePkt, Connect.closeTr, Connect.closeConn, Connect.held]
+
+theorem held_connect (e : Connect.Exit) : Connect.held (Connect.connect e).1 = decide (e = .ok) := by
+  cases e <;> decide
+
+theorem close_clean (r : Connect.R3) (h1 : r.nilDeref = false) (hp : r.pkt ≠ none) (ht : r.tr ≠ none)
+    (hc : r.conn ≠ none) :
+    (Connect.close r).nilDeref = false ∧ (Connect.close r).pkt ≠ none ∧ (Connect.close r).tr ≠ none ∧
+    (Connect.close r).conn ≠ none := by
+  cases r with
+  | mk p t c nd =>
+    cases p <;> cases t <;> cases c <;>
+      simp_all [Connect.close, Connect.closePkt, Connect.closeTr, Connect.closeConn]
+
+/-- invariant tying the open/closed census to the resources: the census bit IS `Connect.held`,
+    an open socket's client owns all three unclosed, no recorded run went through a nil pointer -/
+structure RInv (s : St) : Prop where
+  link  : ∀ x, s.sock x = (s.res x).map Connect.held
+  owns  : ∀ x, s.sock x = some true → s.res x = some Connect.owned
+  clean : ∀ x r, s.res x = some r → r.nilDeref = false ∧ r.pkt ≠ none ∧ r.tr ≠ none
+  full  : ∀ c, s.client = some c → ∀ r, s.res c = some r → r.conn ≠ none
+
+theorem rinv_init : RInv init := by
+  constructor <;> simp [init]
+
+theorem rinv_closeSock_cur (s : St) (c : Nat) (h : Inv s) (hr : RInv s) (hc : s.client = some c) :
+    RInv (closeSock s c) := by
+  have hne : s.sock c ≠ none := h.used c (h.cur c hc)
+  obtain ⟨r, hrc⟩ : ∃ r, s.res c = some r := by
+    have := hr.link c
+    cases hres : s.res c with
+    | none => rw [hres] at this; exact absurd this hne
+    | some r => exact ⟨r, rfl⟩
+  have hcl := hr.clean c r hrc
+  have hfu := hr.full c hc r hrc
+  have hcc := close_clean r hcl.1 hcl.2.1 hcl.2.2 hfu
+  refine ⟨?_, ?_, ?_, ?_⟩
+  · intro x
+    simp only [closeSock, upd_apply]
+    split
+    · rename_i hx; subst hx; rw [hrc]; simp [held_close]
+    · exact hr.link x
+  · intro x hx
+    simp only [closeSock, upd_apply] at hx ⊢
+    split at hx
+    · simp at hx
+    · rename_i hne'; simp only [hne', if_false]; exact hr.owns x hx
+  · intro x r' hx
+    simp only [closeSock, upd_apply] at hx
+    split at hx
+    · rename_i hx'; subst hx'
+      rw [hrc] at hx
+      simp only [Option.map_some, Option.some.injEq] at hx
+      subst hx
+      exact ⟨hcc.1, hcc.2.1, hcc.2.2.1⟩
+    · exact hr.clean x r' hx
+  · intro c' hc' r' hx
+    have hcc' : c' = c := by
+      simp only [closeSock] at hc'; rw [hc] at hc'; exact (Option.some.inj hc').symm
+    subst hcc'
+    simp only [closeSock, upd_apply, if_true, hrc, Option.map_some, Option.some.injEq] at hx
+    subst hx
+    exact hcc.2.2.2
+
+theorem rinv_closeOld (s : St) (h : Inv s) (hr : RInv s) : RInv (closeOld s) := by
+  unfold closeOld
+  cases hc : s.client with
+  | none => exact hr
+  | some c => exact rinv_closeSock_cur s c h hr hc
+
+theorem closeOld_alloc (s : St) (h : Inv s) : ∀ x, (closeOld s).nextId ≤ x → (closeOld s).res x = s.res x := by
+  intro x hx
+  unfold closeOld at hx ⊢
+  cases hc : s.client with
+  | none => rfl
+  | some c =>
+    simp only [hc, closeSock] at hx ⊢
+    have := h.cur c hc
+    simp only [upd_apply]
+    have : x ≠ c := by omega
+    simp [this]
+
+theorem connect_fail_clean (a : Att) (ha : a.failsWithSocket) :
+    (Connect.connect a.exit).1.nilDeref = false ∧ (Connect.connect a.exit).1.pkt ≠ none ∧
+    (Connect.connect a.exit).1.tr ≠ none ∧ Connect.held (Connect.connect a.exit).1 = false := by
+  rcases ha with h | h | h <;> subst h <;> decide
+
+theorem rinv_attempt (s : St) (a : Att) (hr : RInv s) : RInv (attempt s a).1 := by
+  rcases att_cases a with h' | h' | h' | h' | h'
+  · subst h'; rw [attempt_cfgErr]; exact ⟨hr.link, hr.owns, hr.clean, hr.full⟩
+  · subst h'; rw [attempt_badCfg]; exact ⟨hr.link, hr.owns, hr.clean, fun c hc => by simp at hc⟩
+  · subst h'; rw [attempt_newErr]; exact ⟨hr.link, hr.owns, hr.clean, fun c hc => by simp at hc⟩
+  · rw [attempt_failSock s a h']
+    have hcf := connect_fail_clean a h'
+    refine ⟨?_, ?_, ?_, fun c hc => by simp at hc⟩
+    · intro x
+      simp only [upd_apply]
+      split
+      · simp [hcf.2.2.2]
+      · exact hr.link x
+    · intro x hx
+      simp only [upd_apply] at hx ⊢
+      split at hx
+      · simp at hx
+      · rename_i hne; simp only [hne, if_false]; exact hr.owns x hx
+    · intro x r hx
+      simp only [upd_apply] at hx
+      split at hx
+      · simp only [Option.some.injEq] at hx; subst hx; exact ⟨hcf.1, hcf.2.1, hcf.2.2.1⟩
+      · exact hr.clean x r hx
+  · subst h'; rw [attempt_ok]
+    refine ⟨?_, ?_, ?_, ?_⟩
+    · intro x
+      simp only [upd_apply]
+      split
+      · simp [Connect.held, Connect.owned]
+      · exact hr.link x
+    · intro x hx
+      simp only [upd_apply] at hx ⊢
+      split at hx
+      · rename_i he; simp [he]
+      · rename_i hne; simp only [hne, if_false]; exact hr.owns x hx
+    · intro x r hx
+      simp only [upd_apply] at hx
+      split at hx
+      · simp only [Option.some.injEq] at hx; subst hx; simp [Connect.owned]
+      · exact hr.clean x r hx
+    · intro c hc r hx
+      simp only [Option.some.injEq] at hc
+      subst hc
+      simp only [upd_apply, if_true, Option.some.injEq] at hx
+      subst hx; simp [Connect.owned]
+
+theorem rinv_reconnect (s : St) (a : Att) (h : Inv s) (hr : RInv s) : RInv (reconnect s a).1 := by
+  unfold reconnect
+  exact rinv_attempt _ a (rinv_closeOld s h hr)
+
+theorem rinv_enter (s : St) (g : Nat) (hr : RInv s) : RInv (enter s g) := by
+  unfold enter
+  split
+  · exact ⟨hr.link, hr.owns, hr.clean, hr.full⟩
+  · exact hr
+
+theorem rinv_step (s : St) (l : Label) (h : Inv s) (hr : RInv s) : RInv (step fixed s l) := by
+  cases l with
+  | start lazy a =>
+    simp only [step]
+    split
+    · exact hr
+    · split
+      · exact ⟨hr.link, hr.owns, hr.clean, hr.full⟩
+      · have h2 := rinv_reconnect s a h hr
+        split
+        · rename_i s' heq
+          have : s' = (reconnect s a).1 := by rw [heq]
+          subst this
+          exact ⟨h2.link, h2.owns, h2.clean, h2.full⟩
+        · rename_i s' e heq
+          have : s' = (reconnect s a).1 := by rw [heq]
+          subst this
+          exact ⟨h2.link, h2.owns, h2.clean, h2.full⟩
+  | callBegin g a =>
+    simp only [step]
+    split
+    · exact hr
+    · split
+      · exact hr
+      · split
+        · exact ⟨hr.link, hr.owns, hr.clean, hr.full⟩
+        · split
+          · exact rinv_enter s g hr
+          · have h2 := rinv_reconnect s a h hr
+            split
+            · rename_i s' e heq
+              have : s' = (reconnect s a).1 := by rw [heq]
+              subst this
+              exact ⟨h2.link, h2.owns, h2.clean, h2.full⟩
+            · rename_i s' heq
+              have : s' = (reconnect s a).1 := by rw [heq]
+              subst this
+              exact rinv_enter _ g h2
+  | callEnd g r =>
+    simp only [step]
+    split
+    · exact hr
+    · rename_i c hpc
+      have h1 : Inv { s with pc := upd s.pc g .idle, log := .ret g r.toRet :: s.log } :=
+        ⟨h.live, h.fin, h.alloc, h.used, h.cur, h.cs, by simpa [connArgs] using h.cnt,
+          by simpa [newSocks] using h.socks⟩
+      have hr1 : RInv { s with pc := upd s.pc g .idle, log := .ret g r.toRet :: s.log } :=
+        ⟨hr.link, hr.owns, hr.clean, hr.full⟩
+      split
+      · split
+        · rename_i hcur
+          simp only [fixed, if_true]
+          have h2 := rinv_closeSock_cur _ c h1 hr1 hcur
+          exact ⟨h2.link, h2.owns, h2.clean, fun c' hc' => by cases hc'⟩
+        · exact hr1
+      · exact hr1
+  | kill c =>
+    simp only [step]
+    split
+    · exact ⟨hr.link, hr.owns, hr.clean, hr.full⟩
+    · exact hr
+  | close =>
+    simp only [step]
+    split
+    · exact hr
+    · split
+      · rename_i c hc
+        have h2 := rinv_closeSock_cur s c h hr hc
+        exact ⟨h2.link, h2.owns, h2.clean, h2.full⟩
+      · exact ⟨hr.link, hr.owns, hr.clean, hr.full⟩
+
+theorem inv_rinv_run (tr : List Label) : ∀ s, Inv s → RInv s → Inv (run fixed s tr) ∧ RInv (run fixed s tr) := by
+  induction tr with
+  | nil => intro s h hr; exact ⟨h, hr⟩
+  | cons l tr ih => intro s h hr; exact ih _ (inv_step s l h) (rinv_step s l h hr)
 
 end Hy.Reconnect
